@@ -209,7 +209,7 @@ row('C11', EVENTS, 'break:end>=start',
     _struct_init('section::events::BreakPeriod', 'end_time',
                  VIA(M('max', L('start_time'), TRY(C('ParseNumber>::parse', ANY()))))))
 row('C11', EVENTS, 'break:start', _struct_init('section::events::BreakPeriod', 'start_time',
-                                               VIA(TRY(C('ParseNumber>::parse', L('start_time'))))))
+                                               VIA(TRY(C('ParseNumber>::parse', OR(L('start_time'), F(ANY(), 'start_time')))))))
 def _event_arm(hfn, variant):
     """body of the `EventType::<variant>` arm of the event-kind match"""
     res = []
@@ -1118,6 +1118,42 @@ row('C12', TIMING, 'clamp:scroll_speed',
     _all_assign(['scroll_speed'], CLAMP(L('speed_multiplier'), K(0.01), K(10.0)), base='effect'))
 row('C12', TIMING, 'speed_multiplier',
     _let('speed_multiplier', IF(BIN('Lt', L('beat_len'), K(0.0)), BIN('Div', K(100.0), UN('Neg', L('beat_len'))), K(1.0))))
+def _bank_default_only_when_absent(ctx, hfn):
+    """the sample bank of a timing line: the `[General]` default stands in only for a column that is missing or not a bank
+    number, and bank 0 (none) then becomes Normal -- a chain `split.next().map(parse).transpose()?.map(try_from)
+    .and_then(Result::ok).unwrap_or(default)`; any further narrowing of that Option (`filter`, ..) makes an explicitly
+    written bank fall back to the default as well"""
+    its = ctx.inits.get('sample_set', [])
+    if len(its) != 1:
+        return True, 'not determined: `sample_set` is not bound once', None
+    e = strip(its[0])
+    names = []
+    cur = e
+    while isinstance(cur, dict) and cur.get('k') == 'mcall':
+        names.append(cur['name'])
+        cur = strip(cur['recv'], keep_try=False) if True else cur
+    if not names or names[0] not in ('unwrap_or', 'unwrap_or_else', 'map_or', 'unwrap_or_default'):
+        return True, 'not determined: the bank is not an Option chain with a default', e.get('ln') if isinstance(e, dict) else None
+    ALLOWED = {'unwrap_or', 'unwrap_or_else', 'map_or', 'next', 'map', 'transpose', 'and_then', 'ok', 'copied', 'trim'}
+    extra = [n_ for n_ in names if n_ not in ALLOWED]
+    ok = not extra
+    return ok, '' if ok else ('the bank column is narrowed by `%s` before the default applies: an explicitly written bank can fall back to '
+                              'the [General] default' % ', '.join(extra)), e.get('ln')
+
+
+row('C12', TIMING, 'sample-bank:default-only-when-absent', _bank_default_only_when_absent)
+row('C12', TIMING, 'sample-bank:none-means-normal',
+    _contains(IF(BIN('Eq', L('sample_set'), P('SampleBank::None'), commutative=True), CONTAINS(P('SampleBank::Normal'))),
+              'bank 0 (none) of a timing line means the normal bank'))
+row('C12', TIMING, 'group:same-time-tolerance',
+    _contains(OR(BIN('Ge', M('abs', BIN('Sub', ANY(), ANY())), K(2.220446049250313e-16)),
+                 BIN('Lt', M('abs', BIN('Sub', ANY(), ANY())), K(2.220446049250313e-16))),
+              'lines belong to one group when their times differ by less than the constant f64::EPSILON'))
+row('C04', TIMING, 'group:same-time-tolerance',
+    _contains(OR(BIN('Ge', M('abs', BIN('Sub', ANY(), ANY())), K(2.220446049250313e-16)),
+                 BIN('Lt', M('abs', BIN('Sub', ANY(), ANY())), K(2.220446049250313e-16))),
+              'lines belong to one group when their times differ by less than the constant f64::EPSILON (two lines the encoder '
+              'writes one after the other must not be merged on read-back)'))
 row('C12', TIMING, 'timing_change-default',
     _let('timing_change', OPT_OR(ANY(), K(True))))
 for ty in ('timing::TimingPoint', 'difficulty::DifficultyPoint', 'sample::SamplePoint', 'effect::EffectPoint'):
@@ -1441,6 +1477,29 @@ def _suffix_rejects_only_unparsable(ctx, hfn):
 
 
 row('C04', _HS + 'SampleBankInfo::read_custom_sample_banks', 'sample-suffix-rejects-only-unparsable', _suffix_rejects_only_unparsable)
+_AS_READ = OR(M('map', M('next', ANY()), OR(P('to_owned'), P('to_string'), P('String::from'), P('From>::from'), P('Into>::into'), P('ToOwned'))),
+              M('map', M('next', ANY()), ANY()))
+
+
+def _filename_as_read(ctx, hfn):
+    """the sample file name of a hit object is stored as it stands in the line: the encoder writes it back verbatim, and a
+    normalised name (separators replaced, trimmed, lower-cased) can contain `//` or differ from what was written"""
+    rhs = assignments(hfn, 'self', ['filename'])
+    if not rhs:
+        return False, 'no assignment to `self.filename` found', None
+    for r, ln, anc in rhs:
+        ctx.env = {}
+        bad = find(ctx, r, OR(M('to_standardized_path', ANY()), P('to_standardized_path'), M('replace', ANY(), ANY(), ANY()), M('trim', ANY()),
+                              P('str::trim'), M('to_lowercase', ANY()), M('to_ascii_lowercase', ANY()), M('trim_matches', ANY(), ANY()),
+                              M('clean_filename', ANY()), P('clean_filename')))
+        if bad:
+            return False, ('the sample file name is rewritten on the way in: what the encoder writes back is not what the line said '
+                           '(and may contain `//`, which the hit-object parser cuts as a comment)'), ln
+    return True, '', rhs[0][1]
+
+
+_filename_as_read.positive = True
+row('C04', _HS + 'SampleBankInfo::read_custom_sample_banks', 'sample-filename-as-read', _filename_as_read)
 row('C14', _HS + 'SampleBankInfo::read_custom_sample_banks', 'sample-suffix-rejects-only-unparsable', _suffix_rejects_only_unparsable)
 CONVP = 'section::hit_objects::decode::HitObjectsState::convert_points'
 _SPLIT_SHAPE = {
@@ -1817,6 +1876,9 @@ def _letters(ctx, hfn):
                 if a['pat'].get('k') == 'wild':
                     got['_'] = set(names)
     H.walk(hfn['body'], visit)
+    if not got:
+        from kt import letter_table_by_prefix_tests
+        got = {l: {d.rsplit('::', 1)[-1] for d in ds} for l, ds in letter_table_by_prefix_tests(ctx.facts, hfn).items()}
     exp = {'B': 'BEZIER', 'L': 'LINEAR', 'P': 'PERFECT_CURVE', '_': 'CATMULL'}
     consts = set(exp.values())
     # each letter's arm yields its own constant and none of the others (the B arm may also build a B-spline
